@@ -229,6 +229,121 @@ Proof.
   destruct te; [auto|]. destruct cl; [auto|]. destruct (cb_pilots ps ts); auto.
 Qed.
 
+(* ---- what is handed to advance() ---------------------------------------- *)
+Definition own1 (pid : Z) (t : task) : bool := bound_to pid t && negb (t_final (t_state t)).
+
+Lemma fail_loop_adv pid ts :
+  snd (fail_loop pid ts) = map (fun t => (t_uid t, T_FAILED)) (filter (own1 pid) ts).
+Proof.
+  induction ts as [|t r IH]; [reflexivity|]. simpl.
+  destruct (fail_loop pid r) as [r' adv]. simpl in IH. subst adv. unfold own1.
+  destruct (bound_to pid t); simpl; [|reflexivity].
+  destruct (t_final (t_state t)) eqn:Hfin; simpl; [reflexivity|].
+  unfold update_failed. rewrite (nonfinal_not_failed_done _ Hfin). reflexivity.
+Qed.
+
+Lemma fail1_own pid t : own1 pid t = true ->
+  t_uid (fail1 pid t) = t_uid t /\ t_state (fail1 pid t) = T_FAILED.
+Proof.
+  unfold own1, fail1. intro H. apply andb_true_iff in H as [Hb Hf]. apply negb_true_iff in Hf.
+  rewrite Hb, Hf. simpl. unfold update_failed. rewrite (nonfinal_not_failed_done _ Hf). auto.
+Qed.
+
+Lemma fail1_not_own pid t : own1 pid t = false -> fail1 pid t = t.
+Proof.
+  unfold own1, fail1. intro H. destruct (bound_to pid t); simpl in *; [|reflexivity].
+  apply negb_false_iff in H. rewrite H. reflexivity.
+Qed.
+
+(* whatever is handed to advance() is a FAILED task of the table afterwards *)
+Lemma cb_pilots_adv_sound ps : forall ts e,
+  In e (concat (snd (cb_pilots ps ts))) ->
+  exists t', In t' (fst (cb_pilots ps ts)) /\ t_uid t' = fst e /\ t_state t' = snd e.
+Proof.
+  induction ps as [|[pid st] r IH]; intros ts e Hin; [destruct Hin|].
+  simpl in *. destruct (p_final st) eqn:Hp; [|apply IH; exact Hin].
+  pose proof (fail_loop_map pid ts) as H1. pose proof (fail_loop_adv pid ts) as H2.
+  destruct (fail_loop pid ts) as [ts1 adv]. simpl in H1, H2.
+  pose proof (cb_pilots_map r ts1) as H3. specialize (IH ts1 e).
+  destruct (cb_pilots r ts1) as [ts2 advs]. simpl in *.
+  apply in_app_or in Hin as [Hin | Hin]; [|apply IH; exact Hin].
+  subst adv. apply in_map_iff in Hin as [t [<- Ht]]. apply filter_In in Ht as [Ht Ho].
+  destruct (fail1_own pid t Ho) as [Eu Es].
+  exists (fail1 pid t). split; [|split; simpl; assumption].
+  rewrite H3, H1. apply in_map_iff. exists (fail1 pid t). split.
+  - apply fail_for_final. rewrite Es. reflexivity.
+  - apply in_map. exact Ht.
+Qed.
+
+(* every own task is handed to advance() as FAILED *)
+Lemma cb_pilots_adv_complete ps : forall ts t,
+  In t ts -> own ps t = true -> In (t_uid t, T_FAILED) (concat (snd (cb_pilots ps ts))).
+Proof.
+  induction ps as [|[pid st] r IH]; intros ts t Hin Ho.
+  { unfold own in Ho. simpl in Ho. destruct (t_pilot t); rewrite andb_false_r in Ho; discriminate. }
+  assert (Hfin : t_final (t_state t) = false).
+  { unfold own in Ho. apply andb_true_iff in Ho as [Ho _]. apply negb_true_iff in Ho. exact Ho. }
+  destruct (t_pilot t) as [q|] eqn:Hq; [|rewrite (own_none _ _ Hq) in Ho; discriminate].
+  rewrite (own_some _ _ _ Hfin Hq) in Ho. unfold dies in Ho. simpl in Ho. fold (dies r q) in Ho.
+  simpl. destruct (p_final st) eqn:Hp.
+  - pose proof (fail_loop_map pid ts) as H1. pose proof (fail_loop_adv pid ts) as H2.
+    destruct (fail_loop pid ts) as [ts1 adv]. simpl in H1, H2.
+    specialize (IH ts1). destruct (cb_pilots r ts1) as [ts2 advs]. simpl in *.
+    apply in_or_app.
+    destruct (own1 pid t) eqn:Ho1.
+    + left. subst adv. apply in_map_iff. exists t. split; [reflexivity|].
+      apply filter_In. split; assumption.
+    + right. apply (IH t).
+      * rewrite H1. rewrite <- (fail1_not_own pid t Ho1). apply in_map. exact Hin.
+      * rewrite (own_some _ _ _ Hfin Hq).
+        unfold own1, bound_to in Ho1. rewrite Hq, Hfin in Ho1. simpl in Ho1.
+        rewrite andb_true_r in Ho1. rewrite Z.eqb_sym, Ho1 in Ho. simpl in Ho. exact Ho.
+  - rewrite andb_false_r in Ho. simpl in Ho. apply (IH ts t Hin).
+    rewrite (own_some _ _ _ Hfin Hq). exact Ho.
+Qed.
+
+Lemma ok_reported_model active ps ts :
+  ok_reported active ps ts (fst (cb_pilots ps ts)) (snd (cb_pilots ps ts)) = true.
+Proof.
+  unfold ok_reported. apply andb_true_iff. split.
+  - destruct active; [simpl | reflexivity]. apply forallb_forall. intros t Ht.
+    destruct (own ps t) eqn:Ho; [simpl | reflexivity].
+    apply existsb_exists. exists (t_uid t, T_FAILED). split.
+    + apply cb_pilots_adv_complete; assumption.
+    + simpl. rewrite Z.eqb_refl. reflexivity.
+  - apply forallb_forall. intros e He.
+    destruct (cb_pilots_adv_sound ps ts e He) as [t' [Hin [Eu Es]]].
+    apply existsb_exists. exists t'. split; [exact Hin|].
+    rewrite Eu, Es, Z.eqb_refl. destruct (snd e); reflexivity.
+Qed.
+
+Lemma cb_result m ps :
+  pilot_state_cb m ps =
+  if negb (m_terminating m) && negb (m_closed m)
+  then (mkM false false (fst (cb_pilots ps (m_tasks m))), true, snd (cb_pilots ps (m_tasks m)))
+  else (m, negb (m_terminating m), []).
+Proof.
+  destruct m as [te cl ts]. unfold pilot_state_cb. simpl.
+  destruct te; [reflexivity|]. destruct cl; [reflexivity|]. simpl.
+  destruct (cb_pilots ps ts); reflexivity.
+Qed.
+
+Theorem history_reported (ops : list op) : forall m,
+  nth 2 (ok_history m ops (run m ops)) false = true.
+Proof.
+  induction ops as [|o r IH]; intro m; [reflexivity|].
+  destruct o as [ps|u s p| |]; try (simpl; apply IH).
+  cbn [run]. rewrite cb_result.
+  destruct (negb (m_terminating m) && negb (m_closed m)) eqn:Hact.
+  - cbn [ok_history]. rewrite Hact.
+    apply andb_true_iff in Hact as [H1 H2]. apply negb_true_iff in H1, H2. rewrite H1, H2.
+    cbn [m_tasks]. cbn [nth]. rewrite IH, andb_true_r. apply ok_reported_model.
+  - cbn [ok_history]. rewrite Hact.
+    assert (Em : mkM (m_terminating m) (m_closed m) (m_tasks m) = m) by (destruct m; reflexivity).
+    rewrite Em. cbn [nth]. rewrite IH, andb_true_r.
+    unfold ok_reported. reflexivity.
+Qed.
+
 Theorem history_own_and_others (ops : list op) : forall m,
   nth 0 (ok_history m ops (run m ops)) false = true /\
   nth 1 (ok_history m ops (run m ops)) false = true.
